@@ -941,26 +941,29 @@ package keeper
 // whole ghost world.
 // ---------------------------------------------------------------------------------------------
 
-// rewardOf / rewardsOf / balanceOf read the pending rewards through the x/distribution gRPC querier on the live context.
-// Clause C12.ro_distribution_unchanged is the part of "a read-only method writes nothing" that concerns x/distribution:
-// it FAILS on this tree (finding F-cpc-2, docs/findings-cpc.md: the querier runs IncrementValidatorPeriod).
+// rewardOf / rewardsOf / balanceOf read the pending rewards through the x/distribution gRPC querier, which WRITES
+// (IncrementValidatorPeriod). Clause C12.ro_distribution_unchanged is the part of "a read-only method writes nothing" that
+// concerns x/distribution: the x/distribution state of the call's own layer, and of every store layer that existed when the
+// call started, is unchanged (the only entries that may change belong to a layer created during the call and never
+// written back). It FAILS when the querier is run on the live context (finding F-cpc-2, docs/findings-cpc.md); it holds
+// when the querier runs on a cache context whose write function is dropped (fix candidate, docs/findings-cpc2.md).
 //@ func (e stakingCustomPrecompiledContractRoRewardOf) Execute(caller corevm.ContractRef, contractAddr common.Address, input []byte, env cpcExecutorEnv) (ret []byte, err error)
 //@   requires e.contract != nil
-//@   modifies distVersion[layer(env.ctx)]
+//@   modifies distVersion, layerLive
 //@   ensures[C12.ro_world_unchanged] (bankBal == old(bankBal) && bankSupply == old(bankSupply) && authVersion == old(authVersion) && evlog == old(evlog) && kvHas == old(kvHas) && kvVal == old(kvVal) && acctSeq == old(acctSeq) && acctExists == old(acctExists) && stakingVersion == old(stakingVersion) && sdbLogCount == old(sdbLogCount) && sdbLogAddr == old(sdbLogAddr) && sdbLogNTopics == old(sdbLogNTopics) && sdbLogT0 == old(sdbLogT0) && sdbLogT1 == old(sdbLogT1) && sdbLogT2 == old(sdbLogT2) && sdbLogT3 == old(sdbLogT3) && sdbLogData == old(sdbLogData))
-//@   ensures[C12.ro_distribution_unchanged] distVersion == old(distVersion)
+//@   ensures[C12.ro_distribution_unchanged] distVersion[layer(env.ctx)] == old(distVersion[layer(env.ctx)]) && (forall l int :: old(layerLive[l]) ==> distVersion[l] == old(distVersion[l]))
 
 //@ func (e stakingCustomPrecompiledContractRoRewardsOf) Execute(caller corevm.ContractRef, contractAddr common.Address, input []byte, env cpcExecutorEnv) (ret []byte, err error)
 //@   requires e.contract != nil
-//@   modifies distVersion[layer(env.ctx)]
+//@   modifies distVersion, layerLive
 //@   ensures[C12.ro_world_unchanged] (bankBal == old(bankBal) && bankSupply == old(bankSupply) && authVersion == old(authVersion) && evlog == old(evlog) && kvHas == old(kvHas) && kvVal == old(kvVal) && acctSeq == old(acctSeq) && acctExists == old(acctExists) && stakingVersion == old(stakingVersion) && sdbLogCount == old(sdbLogCount) && sdbLogAddr == old(sdbLogAddr) && sdbLogNTopics == old(sdbLogNTopics) && sdbLogT0 == old(sdbLogT0) && sdbLogT1 == old(sdbLogT1) && sdbLogT2 == old(sdbLogT2) && sdbLogT3 == old(sdbLogT3) && sdbLogData == old(sdbLogData))
-//@   ensures[C12.ro_distribution_unchanged] distVersion == old(distVersion)
+//@   ensures[C12.ro_distribution_unchanged] distVersion[layer(env.ctx)] == old(distVersion[layer(env.ctx)]) && (forall l int :: old(layerLive[l]) ==> distVersion[l] == old(distVersion[l]))
 
 //@ func (e stakingCustomPrecompiledContractRoBalanceOf) Execute(caller corevm.ContractRef, contractAddr common.Address, input []byte, env cpcExecutorEnv) (ret []byte, err error)
 //@   requires e.rewardsOf.contract != nil && e.rewardsOf.contract.keeper.bankKeeper != nil
-//@   modifies distVersion[layer(env.ctx)]
+//@   modifies distVersion, layerLive
 //@   ensures[C12.ro_world_unchanged] (bankBal == old(bankBal) && bankSupply == old(bankSupply) && authVersion == old(authVersion) && evlog == old(evlog) && kvHas == old(kvHas) && kvVal == old(kvVal) && acctSeq == old(acctSeq) && acctExists == old(acctExists) && stakingVersion == old(stakingVersion) && sdbLogCount == old(sdbLogCount) && sdbLogAddr == old(sdbLogAddr) && sdbLogNTopics == old(sdbLogNTopics) && sdbLogT0 == old(sdbLogT0) && sdbLogT1 == old(sdbLogT1) && sdbLogT2 == old(sdbLogT2) && sdbLogT3 == old(sdbLogT3) && sdbLogData == old(sdbLogData))
-//@   ensures[C12.ro_distribution_unchanged] distVersion == old(distVersion)
+//@   ensures[C12.ro_distribution_unchanged] distVersion[layer(env.ctx)] == old(distVersion[layer(env.ctx)]) && (forall l int :: old(layerLive[l]) ==> distVersion[l] == old(distVersion[l]))
 
 // the remaining read-only staking methods and the ten bech32 methods (pure computations)
 //@ func (e stakingCustomPrecompiledContractRoName) Execute(caller corevm.ContractRef, contractAddr common.Address, input []byte, env cpcExecutorEnv) (ret []byte, err error)
